@@ -166,6 +166,8 @@ func (rc *RunCtx) Pick(q, t int) int {
 
 // Report records a violation (deduplicated by signature; at most 3 per signature are kept).
 func (rc *RunCtx) Report(v Violation) {
+	// what is printed and matched must be valid UTF-8 whatever bytes the failing input contained
+	v.Sig, v.Detail = strings.ToValidUTF8(v.Sig, "?"), strings.ToValidUTF8(v.Detail, "?")
 	if rc.sigSeen == nil {
 		rc.sigSeen = map[string]int{}
 	}
